@@ -209,9 +209,20 @@ func genCount(rng *rand.Rand, max int) int {
 	return min(n, max)
 }
 
-var artifactTypes = []string{"", "application/vnd.a", "application/vnd.b+json", "application/vnd.c.v1"}
+// artifactTypePool: plain types and types whose characters need escaping in a query
+var artifactTypePool = []string{"application/vnd.a", "application/vnd.b+json", "application/vnd.c.v1", "application/spdx+json",
+	"application/vnd.x&y", "application/vnd.p#q", "application/vnd.a;v=1", "application/100%.x", "application/vnd with space", "application/vnd.é+x=1?"}
 
-func genRefs(rng *rand.Rand, n, salt int) []ocispec.Descriptor {
+// genPalette picks the artifact types of one case ("" = no artifactType).
+func genPalette(rng *rand.Rand) []string {
+	p := []string{""}
+	for _, k := range rng.Perm(len(artifactTypePool))[:3] {
+		p = append(p, artifactTypePool[k])
+	}
+	return p
+}
+
+func genRefs(rng *rand.Rand, n, salt int, artifactTypes []string) []ocispec.Descriptor {
 	var out []ocispec.Descriptor
 	for k := 0; k < n; k++ {
 		d := ocispec.Descriptor{
@@ -312,10 +323,11 @@ func genRemote(rng *rand.Rand, i int, phase string) (*Case, map[string]string) {
 	isRef := strings.HasPrefix(c.Target, "referrers")
 	if isRef {
 		c.NRefs = genCount(rng, 120)
-		c.Refs = genRefs(rng, c.NRefs, i)
+		palette := genPalette(rng)
+		c.Refs = genRefs(rng, c.NRefs, i, palette)
 		c.Cursor = []string{"token", "token-lastwins"}[rng.IntN(2)]
 		if rng.IntN(2) == 0 {
-			c.Filter = []string{"application/vnd.a", "application/vnd.b+json", "application/vnd.c.v1", "application/vnd.absent"}[rng.IntN(4)]
+			c.Filter = append(palette[1:], "application/vnd.absent+x")[rng.IntN(4)]
 		}
 		c.FilterMode = []string{"none", "header", "header-multi", "annotation", "undeclared"}[rng.IntN(5)]
 		if c.Filter == "" {
@@ -349,6 +361,7 @@ func genRemote(rng *rand.Rand, i int, phase string) (*Case, map[string]string) {
 	c.LinkParams = rng.IntN(6)
 	c.LinkN = rng.IntN(2) == 0
 	c.LinkExtra = []int{0, 0, 1, 2}[rng.IntN(4)]
+	c.LinkComma = []int{0, 0, 0, 1, 2, 3}[rng.IntN(6)]
 	c.RawSlash = rng.IntN(3) == 0
 	c.CursorFirst = rng.IntN(2) == 0
 	c.EmptyLast = rng.IntN(4) == 0
@@ -444,7 +457,7 @@ func genRemote(rng *rand.Rand, i int, phase string) (*Case, map[string]string) {
 		c.LinkParams = rng.IntN(5)
 		if len(c.Items)+len(c.Refs) < 4 {
 			if isRef {
-				c.Refs = genRefs(rng, 6, i)
+				c.Refs = genRefs(rng, 6, i, genPalette(rng))
 				c.NRefs = 6
 			} else {
 				c.Items = genNames(rng, 6, c.Target == "repos")
@@ -787,10 +800,13 @@ func judge(res *worker.Result, c *Case, cls map[string]string, sc *script, rt *c
 	if failed {
 		failCls = "fail"
 	}
-	res.Key = strings.Join([]string{c.Target, strings.Join(pageLens, ","), fmt.Sprint(c.LinkForm, c.LinkParams, c.LinkN, c.LinkExtra, c.RawSlash), c.Cursor, cls["last"], cls["size"], cls["filter"], failCls, c.RelShape}, "|")
+	res.Key = strings.Join([]string{c.Target, strings.Join(pageLens, ","), fmt.Sprint(c.LinkForm, c.LinkParams, c.LinkN, c.LinkExtra, c.RawSlash, c.LinkComma), c.Cursor, cls["last"], cls["size"], cls["filter"], failCls, c.RelShape}, "|")
 	res.NT = pages >= 3 || nearLimit
 	res.Observe("targets", c.Target)
-	res.Observe("link_flavours", fmt.Sprint(c.LinkForm, c.LinkParams%5, c.LinkParams >= 5, c.LinkExtra))
+	res.Observe("link_flavours", fmt.Sprint(c.LinkForm, c.LinkParams%5, c.LinkParams >= 5, c.LinkExtra, c.LinkComma))
+	if c.Filter != "" {
+		res.Observe("filter_values", c.Filter+"/"+c.FilterMode)
+	}
 	res.Observe("size_classes", cls["size"])
 	res.Observe("last_classes", cls["last"])
 	res.Observe("split_classes", cls["sizes"]+fmt.Sprint(c.HonourN, c.ClientN > 0, c.EmptyLast))
